@@ -48,11 +48,12 @@ type zzvCKVec struct {
 }
 
 type zzvCKIn struct {
-	Max   int        `json:"max"`
-	Ovh   int        `json:"ovh"`
-	Sizes []int      `json:"sizes"`
-	Kinds []string   `json:"kinds"`
-	Vecs  []zzvCKVec `json:"vecs"`
+	Max    int              `json:"max"`
+	Ovh    int              `json:"ovh"`
+	Sizes  []int            `json:"sizes"`
+	ByKind map[string][]int `json:"sizes_by_kind"`
+	Kinds  []string         `json:"kinds"`
+	Vecs   []zzvCKVec       `json:"vecs"`
 }
 
 func zzvSum(b []byte) string {
@@ -149,14 +150,18 @@ func (e *zzvCKEnv) stream(n int, data []byte, dial func() (net.Conn, error), srv
 	if err != nil {
 		return zzvCKResult{err: "dial: " + err.Error()}
 	}
-	defer c.Close()
 	werr := make(chan error, 1)
 	go func() {
-		_, err := c.Write(data) // ONE application write of n bytes
+		nw, err := c.Write(data) // ONE application write of n bytes
+		if err == nil && nw != len(data) {
+			err = fmt.Errorf("short write: %d of %d bytes", nw, len(data))
+		}
 		if err == nil {
 			if mc, ok := c.(*meshConn); ok {
 				err = mc.CloseWrite()
 			}
+		} else {
+			c.Close() // the write failed: nothing more will come back, do not wait for the read deadline
 		}
 		werr <- err
 	}()
@@ -174,6 +179,7 @@ func (e *zzvCKEnv) stream(n int, data []byte, dial func() (net.Conn, error), srv
 	if rerr != nil && res.err == "" {
 		res.err = "read: " + rerr.Error()
 	}
+	c.Close()
 	zzvWaitFor(5*time.Second, func() bool { return srv.count() > before })
 	res.farSum = srv.last()
 	if srv.count() == before {
@@ -328,7 +334,11 @@ func TestZZVFrames(t *testing.T) {
 		m, A, C = build(kind)
 		e.m, e.A, e.C = m, A, C
 		wedged := false
-		for _, n := range in.Sizes {
+		kindSizes := in.ByKind[kind]
+		if kindSizes == nil {
+			kindSizes = in.Sizes
+		}
+		for _, n := range kindSizes {
 			if wedged {
 				skipped = append(skipped, fmt.Sprintf("%s/%d", kind, n))
 				continue
